@@ -693,4 +693,25 @@ example : (crun {} [.b2 3 4 false 24 [(0, 1, 12), (1, 2, 12)], .b2 5 9 true 30 [
      .env 1 .sleepOk, .env 1 (.fetch 1000 10 false), .env 2 (.initOk 3 10), .env 2 .sleepOk, .env 2 (.fetch 10 10 true),
      .fetch, .fetch]).map (·.2) = some [(5, 3), (9, 4)] := by decide
 
+
+/-- **the sequential specification of the Reader's API** (`astep`: `Offset()` is `pos`; `SetOffset(o)` does nothing when
+`o == Offset()`, else moves `Offset()` and — if a fetcher was ever started — restarts; `FetchMessage` lazily starts the
+first fetcher at `Offset()`): in every reachable state, whatever the loops, the broker, the network and the superseded
+fetchers have done and do,
+* `FetchMessage` returns **the first stored record at or above `Offset()`**, and `Offset()` becomes its offset + 1;
+* `SetOffset(o)` makes `Offset() = o`, a step of a loop leaves it alone.
+Exactly-once, in-order, gap-free delivery from the position is the iteration of the first clause. -/
+theorem reader_api (cfg : RCfg) (items : List Item) (nb : Int) (hnb : 0 ≤ nb) (hwf : LWF nb items) (o : Int)
+    (ho : -2 ≤ o ∧ o ≠ -1) (es : List AEv) (hok : ∀ e ∈ es, e.ok items) (a : AS) (ms : List Rec)
+    (hr : arun cfg items { pos := o } es = some (a, ms)) (e : AEv) (he : e.ok items) (a' : AS) (m : Option Rec)
+    (hs : astep cfg items a e = some (a', m)) : ASpec items a e a' m :=
+  (astep_inv cfg items nb hnb hwf (arun_inv cfg items nb hnb hwf es _ a ms (ainv_init items o ho) hok hr) he hs).2
+
+/-- a run of the API: lazy start at FirstOffset, two messages, a no-op SetOffset(5) (= Offset()), SetOffset(9), the last
+message -/
+example : (arun {} [.b2 3 4 false 24 [(0, 1, 12), (1, 2, 12)], .b2 5 9 true 30 [(0, 3, 20), (4, 4, 20)]] { pos := -2 }
+    [.fetch, .env 1 (.initOk 3 10), .env 1 .sleepOk, .env 1 (.fetch 10 10 false), .fetch, .fetch, .setOffset 5,
+     .env 1 .sleepOk, .env 1 (.fetch 1000 10 false), .setOffset 9, .env 2 (.initOk 3 10), .env 2 .sleepOk,
+     .env 2 (.fetch 10 10 true), .fetch]).map (fun p => (p.2, p.1.pos)) = some ([(3, 1), (4, 2), (9, 4)], 10) := by decide
+
 end KV.C02
